@@ -116,16 +116,19 @@ theorem packOffsets_ok (offs : List Int) (h : ∀ o ∈ offs, -32768 ≤ o ∧ o
 
 /-! ### tiles -/
 
-theorem tileLoop_cover {α} (data : List α) (fuel i : Nat) (hi : i ≤ data.length / 256 + 1)
-    (hf : data.length / 256 + 2 ≤ fuel + i) :
+theorem tile_div_facts (n : Nat) (hn : n ≠ 0) :
+    256 * ((n - 1) / 256) ≤ n - 1 ∧ n ≤ 256 * ((n - 1) / 256 + 1) := by
+  have h1 := Nat.mul_div_le (n - 1) 256
+  have h2 := Nat.lt_mul_div_succ (n - 1) (show 0 < 256 by decide)
+  omega
+
+theorem tileLoop_cover {α} (data : List α) (hn : data.length ≠ 0) (fuel i : Nat)
+    (hi : i ≤ (data.length - 1) / 256 + 1) (hf : (data.length - 1) / 256 + 2 ≤ fuel + i) :
     (tileLoop data fuel i).flatMap (·.2) = data.drop (256 * i) := by
+  obtain ⟨hM1, hM2⟩ := tile_div_facts data.length hn
   induction fuel generalizing i with
   | zero =>
-    have : i = data.length / 256 + 1 ∨ i > data.length / 256 + 1 := by omega
-    have hge : data.length ≤ 256 * i := by
-      have := Nat.lt_mul_div_succ data.length (show 0 < 256 by decide)
-      have : 256 * (data.length / 256 + 1) ≤ 256 * i := Nat.mul_le_mul_left _ (by omega)
-      omega
+    have hge : data.length ≤ 256 * i := by omega
     simp [tileLoop, List.drop_eq_nil_of_le hge]
   | succ fuel ih =>
     unfold tileLoop
@@ -135,11 +138,10 @@ theorem tileLoop_cover {α} (data : List α) (fuel i : Nat) (hi : i ≤ data.len
     generalize hTdef : Gen.MAX_TILE_SIZE = T
     have hT : T = 256 := by rw [← hTdef]; rfl
     subst hT
-    by_cases hle : i ≤ data.length / 256
-    · rw [if_pos hle, List.flatMap_cons]
+    by_cases hle : i ≤ (data.length - 1) / 256
+    · rw [if_pos ⟨hn, hle⟩, List.flatMap_cons]
       rw [ih (i + 1) (by omega) (by omega)]
-      have hstart : i * 256 ≤ data.length :=
-        Nat.le_trans (Nat.mul_le_mul_right 256 hle) (Nat.div_mul_le_self data.length 256)
+      have hstart : i * 256 ≤ data.length := by omega
       have a1 : 256 * (i + 1) = i * 256 + 256 := by omega
       have a2 : 256 * i = i * 256 := by omega
       rw [a1, a2, ← List.drop_drop (i := 256) (j := i * 256) (l := data)]
@@ -151,11 +153,8 @@ theorem tileLoop_cover {α} (data : List α) (fuel i : Nat) (hi : i ≤ data.len
         exact List.take_append_drop 256 _
       · rw [if_neg hbig, List.take_of_length_le (by omega), List.drop_eq_nil_of_le (by omega),
           List.append_nil]
-    · rw [if_neg hle, List.flatMap_nil]
-      have hge : data.length ≤ 256 * i := by
-        have := Nat.lt_mul_div_succ data.length (show 0 < 256 by decide)
-        have : 256 * (data.length / 256 + 1) ≤ 256 * i := Nat.mul_le_mul_left _ (by omega)
-        omega
+    · rw [if_neg (fun h => hle h.2), List.flatMap_nil]
+      have hge : data.length ≤ 256 * i := by omega
       rw [List.drop_eq_nil_of_le hge]
 
 theorem tileLoop_bounded {α} (data : List α) (fuel i : Nat) :
@@ -168,7 +167,7 @@ theorem tileLoop_bounded {α} (data : List α) (fuel i : Nat) :
     generalize hTdef : Gen.MAX_TILE_SIZE = T at ht
     have hT : T = 256 := by rw [← hTdef]; rfl
     subst hT
-    by_cases hle : i ≤ data.length >>> 8
+    by_cases hle : data.length ≠ 0 ∧ i ≤ (data.length - 1) >>> 8
     · rw [if_pos hle] at ht
       simp only [List.mem_cons] at ht
       rcases ht with rfl | ht
@@ -180,9 +179,9 @@ theorem tileLoop_bounded {α} (data : List α) (fuel i : Nat) :
       · exact ih (i + 1) t ht
     · rw [if_neg hle] at ht; simp at ht
 
-theorem tileLoop_length {α} (data : List α) (fuel i : Nat) (hi : i ≤ data.length / 256 + 1)
-    (hf : data.length / 256 + 2 ≤ fuel + i) :
-    (tileLoop data fuel i).length = data.length / 256 + 1 - i := by
+theorem tileLoop_length {α} (data : List α) (hn : data.length ≠ 0) (fuel i : Nat)
+    (hi : i ≤ (data.length - 1) / 256 + 1) (hf : (data.length - 1) / 256 + 2 ≤ fuel + i) :
+    (tileLoop data fuel i).length = (data.length - 1) / 256 + 1 - i := by
   induction fuel generalizing i with
   | zero => simp [tileLoop]; omega
   | succ fuel ih =>
@@ -190,12 +189,17 @@ theorem tileLoop_length {α} (data : List α) (fuel i : Nat) (hi : i ≤ data.le
     rw [Nat.shiftRight_eq_div_pow]
     have h8 : (2:Nat) ^ 8 = 256 := by decide
     rw [h8]
-    by_cases hle : i ≤ data.length / 256
-    · simp only [hle, if_true, List.length_cons]
+    by_cases hle : i ≤ (data.length - 1) / 256
+    · rw [if_pos ⟨hn, hle⟩]
+      simp only [List.length_cons]
       rw [ih (i + 1) (by omega) (by omega)]
       omega
-    · simp only [hle, if_false, List.length_nil]
+    · rw [if_neg (fun h => hle h.2)]
+      simp only [List.length_nil]
       omega
+
+theorem tileLoop_empty {α} (fuel i : Nat) : tileLoop ([] : List α) fuel i = [] := by
+  cases fuel <;> simp [tileLoop]
 
 /-! ### reading a written row back -/
 
